@@ -234,6 +234,24 @@ def check_accept(case):
                 raise Violation('client_prefers_mismatch', '%s: client_prefers = %r with a malformed member' % (ctx, prefers))
 
     if header_valid and cands_valid:
+        # ---- the same ranges met again in OTHER headers (one process answers many clients): each range alone, and the
+        # header with one more range appended, must read exactly as the reference says - whatever was parsed before
+        extra = {'t': 'x-vf', 's': 'none', 'p': [], 'q': ['0', '5'], 'qpos': 0, 'qup': False, 'ws': ['', '', '', ''], 'empty_param': False}
+        variants = [[m] for m in members] if len(members) >= 2 else []
+        variants.append(list(members) + [extra])
+        for vm in variants:
+            vheader = render_header(vm)
+            vranges = [struct_range(m) for m in vm]
+            for c, text in zip(cands, ctexts):
+                try:
+                    got = mediatypes.quality(text, vheader)
+                except Exception as e:  # noqa
+                    raise Violation('valid_header_rejected', '%s: after the header above, quality(%r, %r) raised %s'
+                                    % (ctx, text, vheader, _exc(e)))
+                exp = ref.quality(vranges, struct_type(c))
+                if got != exp:
+                    raise Violation('quality_mismatch', '%s: after the header above was evaluated, quality(%r, %r) = %r, '
+                                    'reference %r (a range of that header met again in another header)' % (ctx, text, vheader, got, exp))
         sts = [struct_type(c) for c in cands]
         quals = [ref.quality(ranges, t) for t in sts]
         i = ref.best_index(ranges, sts)
